@@ -102,6 +102,21 @@ def canonical(kind, text):
 
 # ---------------------------------------------------------------------------------------
 
+def _gtf_numbers_canonical(data):
+    """GTF lines with the start and stop columns respelt as plain decimal numbers"""
+    lines = []
+    for line in data.split(b"\n"):
+        f = line.split(b"\t")
+        if len(f) >= 5 and not line.startswith(b"#"):
+            for i in (3, 4):
+                try:
+                    f[i] = str(int(f[i])).encode()
+                except ValueError:
+                    pass
+        lines.append(b"\t".join(f))
+    return b"\n".join(lines)
+
+
 def _resolve_index(op, n):
     """Python-level index object for the model and numpy-level for the table."""
     import numpy as np
@@ -316,6 +331,10 @@ def check_table(case, table, model, replaced_cols, which, exact=True):
             return []
         if out != exp:
             kind = "crlf-selection-loses-linefeed" if case.get("crlf") and out.replace(b"\r", b"\r\n") == exp else f"unmodified-bytes:{case['fmt']}"
+            if case["fmt"] == "gtf" and _gtf_numbers_canonical(exp) == out:
+                # GTF tables are parsed on reading (the reader makes every other table lazy, not this one), so what is written is the
+                # canonical spelling of start and stop: the only difference from the source lines
+                kind = "gtf-start-stop-written-in-canonical-spelling"
             return [Failure(f"C04:{kind}", {"expected": exp[:400], "actual": out[:400], "which": which})]
         return []
     if len(model) == 0:
@@ -360,6 +379,10 @@ def check_table(case, table, model, replaced_cols, which, exact=True):
             else:
                 ok = g == s
                 what = "unreplaced-field-changed"
+                if not ok and case["fmt"] == "gtf" and c in (3, 4) and g.lstrip("-").isdigit() and s.lstrip("+-").isdigit() and int(g) == int(s):
+                    what = "gtf-start-stop-written-in-canonical-spelling"       # (the same cause as for the unmodified table: see there)
+            if not ok and what == "gtf-start-stop-written-in-canonical-spelling":
+                return [Failure(f"C04:{what}", {"row": i, "column": c, "source_text": s, "written": g, "which": which})]
             if not ok:
                 return [Failure(f"C04:{what}:{case['fmt']}", {"row": i, "column": c, "source_text": s, "written": g,
                                                             "wanted": row["repl"].get(name, s), "which": which})]
@@ -443,7 +466,7 @@ def op_strategy(fmt):
 
 @st.composite
 def c04_case(draw, fmt, max_records, max_steps):
-    canonical_ints = fmt == "gtf"
+    canonical_ints = fmt == "gtf" and draw(st.integers(0, 3)) != 0      # (a quarter of the GTF files spell start and stop in other ways)
     if fmt == "vcf-typed":
         # a VCF whose header declares typed INFO keys: reading the INFO column parses it key by key
         case = draw(S.vcf_case("vcf", max_records, typed=True))
